@@ -57,7 +57,7 @@ func c04Child(c *core.Ctx, idx int) {
 	parentOnly := map[string]bool{}
 	for step := 0; step < 40; step++ {
 		id := fmt.Sprintf("c%d", r.Intn(8))
-		ref := core.Pick(r, []string{"d1", "d2", "d1", "nowhere", "", "<nil>", id}) // the last one: the entity's own id, which names no depot
+		ref := core.Pick(r, []string{"d1", "d2", "d1", "nowhere", "", "<nil>", "d1 ", " d2", id}) // blanks around an existing id name nothing; the last one: the entity's own id, which names no depot
 		serial := core.Pick(r, []string{"sn-" + id, "sn-" + id, "<nil>"})
 		_, hasChild := childOf[id]
 		situation := "together with the entity"
@@ -84,7 +84,7 @@ func c04Child(c *core.Ctx, idx int) {
 		if serial != "<nil>" {
 			ent.V["serial"] = serial
 		}
-		refClass := map[string]string{"d1": "existing target", "d2": "existing target", "nowhere": "dangling reference", "": "empty reference", "<nil>": "null reference", id: "dangling reference that is the entity's own id"}[ref]
+		refClass := map[string]string{"d1": "existing target", "d2": "existing target", "nowhere": "dangling reference", "d1 ": "dangling reference (an existing id with a trailing blank)", " d2": "dangling reference (an existing id with a leading blank)", "": "empty reference", "<nil>": "null reference", id: "dangling reference that is the entity's own id"}[ref]
 		wantOk := refClass == "existing target" && serial != "<nil>"
 		opErr := db.Update(nil, func(ctx boltz.MutateContext) error { return kst.Store.Create(ctx, ent) })
 		c.Eval()
